@@ -21,14 +21,15 @@ static void mkid (char *id, int scheme, int i)
 }
 static unsigned mklen (int scheme, int i)
 {	static const unsigned fixed [] = { 0, 1, 2, 3, 4, 5, 7, 8, 255, 256, 1023, 4095 } ;
-	switch (scheme) { case 0 : return fixed [i % 12] ; case 1 : return 1 + vh_rint (40) ; case 2 : return 13 ; case 3 : return (i % 17 == 0) ? 20000 + vh_rint (45537) : vh_rint (64) ; default : return vh_rint (300) ; } }
+	switch (scheme) { case 0 : return fixed [i % 12] ; case 1 : return 1 + vh_rint (40) ; case 2 : return 13 ; case 3 : return (i % 17 == 0) ? 20000 + vh_rint (45537) : vh_rint (64) ; case 5 : return (unsigned) vh_rint (9) ; default : return vh_rint (300) ; } }
 
 static char wlog [200] ; static int full_steps ;
 static void run_case (int format, int ch, int n, int idscheme, int lenscheme, int mix, int late)
 {	MEMF m ; SNDFILE *s ; SF_INFO ri ; CH *cs = calloc (n + 2, sizeof (CH)) ; const char *fn = vh_fname (format) ; int i, N = 777, rc, fp = vh_is_fp (format & SF_FORMAT_SUBMASK) ;
 	char idqb [40] ; const char *idq ;
-	reserved_pick = (int) (vh_case_idx / 7) ;
-	{ char rid [8] ; mkid (rid, 3, 0) ; snprintf (idqb, sizeof (idqb), "|reserved-id:%s", rid) ; }
+	reserved_pick = lenscheme == 5 ? (n * 4 + late + mix) : (int) (vh_case_idx / 7) ;		/* tiny payloads: the id follows from the case parameters so that every container meets every id */
+	/* a reserved id with payloads of at most 8 bytes is its own class: the parsers that interpret such an id treat a body that short as "weird length" and step over it */
+	{ char rid [8] ; mkid (rid, 3, 0) ; snprintf (idqb, sizeof (idqb), "|reserved-id:%s%s", rid, lenscheme == 5 ? "|payloads<=8" : "") ; }
 	idq = idscheme == 3 ? idqb : idscheme == 2 ? "|ids-shorter-than-4" : "" ;
 	long total = 0 ; short *audio = malloc (sizeof (short) * N * ch), *back ; const char *over ;
 	memset (&m, 0, sizeof (m)) ;
@@ -180,6 +181,7 @@ int main (int argc, char **argv)
 			for (r = 0 ; r < reps ; r++)
 			{	if (!vh_case ("%s ch=%d chunks=%d ids=%d rep=%d", vh_fname (format), c, cnt, ids, r)) continue ;
 				ls = (int) ((vh_case_idx + r) % 5) ;
+				if (ids == 3 && r % 4 == 3) ls = 5 ;		/* reserved ids: a quarter of the repetitions with tiny payloads only */
 				{	int mix = vh_rint (4), late = (vh_rint (5) == 0) ? 1 + vh_rint (2) : 0 ;
 					if (cnt > 60 && ls == 0) ls = 1 ;			/* keep the header under the 100 KiB cache unless the case is about the cap */
 					vh_distinct (vh_fnv (0, &format, 4) ^ ((uint64_t) c << 33) ^ ((uint64_t) cnt << 36) ^ ((uint64_t) ids << 46) ^ ((uint64_t) ls << 50) ^ ((uint64_t) mix << 54) ^ ((uint64_t) late << 58) ^ r) ;
